@@ -200,7 +200,7 @@ func runCompScenario(sc CompScenario) compResult {
 			runnables[i] = children[i]
 		}
 	}
-	var cbCount atomic.Int32
+	var cbCount, wantRunning atomic.Int32
 	cb := func() (*composite.Config[supervisor.Runnable], error) {
 		k := int(cbCount.Add(1)) - 1
 		idx := k
@@ -217,6 +217,7 @@ func runCompScenario(sc CompScenario) compResult {
 			return nil, nil
 		}
 		rec.add("CB%d:%d", k, idx)
+		wantRunning.Store(int32(len(c.Entries)))
 		var es []composite.RunnableEntry[supervisor.Runnable]
 		for _, e := range c.Entries {
 			es = append(es, composite.RunnableEntry[supervisor.Runnable]{Runnable: runnables[e.Child], Config: e.Val})
@@ -302,6 +303,21 @@ func runCompScenario(sc CompScenario) compResult {
 		}
 		if maxStart > 0 {
 			time.Sleep(time.Millisecond)
+		}
+		// the composite reports Running as soon as the children's goroutines exist; a child registers as running
+		// only when its goroutine gets to call Run.  On a busy machine that can take longer than the pause above:
+		// wait (never more than 150 ms) for as many children as the configuration in force has
+		for k := 0; k < 300 && runner.GetState() == "Running"; k++ {
+			n := int32(0)
+			for _, c := range children {
+				c.mu.Lock()
+				n += int32(c.active)
+				c.mu.Unlock()
+			}
+			if n >= wantRunning.Load() {
+				break
+			}
+			time.Sleep(500 * time.Microsecond)
 		}
 		var run []string
 		for _, c := range children {
